@@ -8,7 +8,7 @@ From Coq Require Import ZArith List Bool.
 From TV Require Import Base.Prelude Spec.CbcCheck Toy.ToyMac Model.C01_RecordPipe Toy.C01_ToyCipher Spec.C01_Contracts
   Model.C02_RecordAccept Spec.C02_Ideal Proofs.C01_RoundTrip Proofs.C01_Delivery Proofs.C01_ToyOk
   Proofs.C02_Cbc Proofs.C02_Accept Proofs.C02_Integrity Proofs.C02_Reject Proofs.C02_Corollaries
-  Proofs.C02_Image Proofs.C02_Effects Proofs.C01_Close Proofs.C02_Epochs.
+  Proofs.C02_Image Proofs.C02_Effects Proofs.C01_Close Proofs.C02_Epochs Proofs.C02_Round3.
 Import ListNotations.
 Open Scope Z_scope.
 
@@ -223,6 +223,43 @@ Proof. exact no_plaintext_survives_l. Qed.
 Theorem key_change_needs_empty_defragmenter : forall ep x waiting out,
   defrag_step (Some (ep, x :: waiting, out)) DKeyChange = None.
 Proof. exact key_change_needs_empty_l. Qed.
+
+(* ---- the early-data tolerance window (every version and protection path) ----------------------------------- *)
+Theorem early_window_closes : forall (CS : Type) (c : Cfg) (P : Prim CS) (maxe : Z) (r r' : ESt CS) w x,
+  unprotect_e c P maxe r w = ROk (r', Some x) -> es_ok r' = false /\ es_used r' = 0.
+Proof. exact @early_window_closes_l. Qed.
+
+Theorem closed_window_is_strict : forall (CS : Type) (c : Cfg) (P : Prim CS) (maxe : Z) (r : ESt CS) w,
+  es_ok r = false ->
+  unprotect_e c P maxe r w =
+  match unprotect c P (es_st r) w with
+  | ROk (s1, x) => ROk ({| es_st := s1; es_ok := false; es_used := 0 |}, Some x)
+  | RErr e => RErr e
+  end.
+Proof. exact @closed_window_is_strict_l. Qed.
+
+Theorem early_skip_bounded : forall (CS : Type) (c : Cfg) (P : Prim CS) (maxe : Z) (r r' : ESt CS) w,
+  unprotect_e c P maxe r w = ROk (r', None) ->
+  es_ok r = true /\ es_st r' = es_st r /\ es_ok r' = true /\
+  es_used r' = es_used r + zlen (snd w) /\ es_used r' < maxe.
+Proof. exact @early_skip_bounded_l. Qed.
+
+(* once closed, a stream is processed strictly: the first record that does not verify ends it *)
+Theorem closed_stream_is_strict : forall (CS : Type) (c : Cfg) (P : Prim CS) (maxe : Z) (ws : list Wire) (r : ESt CS),
+  es_ok r = false ->
+  fst (recv_stream_e c P maxe r ws) = fst (recv_stream_strict c P (es_st r) ws).
+Proof. exact @closed_stream_is_strict_l. Qed.
+
+(* ---- TLS 1.3 after the handshake (allow_plaintext_alert and _middlebox_compat_mode both cleared): every
+   record whose outer type is not application_data ends in a fatal alert, adds nothing to the read buffer *)
+Theorem no_unprotected_after_handshake : forall (CS : Type) (R : CS -> CS -> Prop) (cr cw : Cfg) (Pr Pw : Prim CS)
+    (e : Endpoint CS) hty hver body,
+  mode_ok Pr R MTls13 cr -> c_plain_alert cr = false -> hty <> 23 ->
+  0 <= st_seq (e_rd e) < 18446744073709551616 ->
+  exists d, snd (recv_step13 false cr cw Pr Pw e (hty, hver, body)) = OLocalAlert d /\
+            e_closed (fst (recv_step13 false cr cw Pr Pw e (hty, hver, body))) = true /\
+            e_rbuf (fst (recv_step13 false cr cw Pr Pw e (hty, hver, body))) = e_rbuf e.
+Proof. exact @no_unprotected_after_handshake_l. Qed.
 
 (* ---- the hypotheses are satisfiable ------------------------------------------------------------------------ *)
 Example aead_tight_satisfiable : aead_tight (toy_prim_aead [4; 5] 16).
